@@ -3,7 +3,7 @@ package main
 // Rename tolerance for source-level local variables mentioned in contracts (ensures-local, invariants, at-call assertions).
 //
 // A contract names a local by its source name. Renaming that local is a harmless edit, yet the name in the contract then
-// resolves to nothing. /verif/checks/locals.json (generated from the unchanged tree by `gvc locals-table`, committed, never
+// resolves to nothing. /verif/checks/aux/locals.json (generated from the unchanged tree by `gvc locals-table`, committed, never
 // written by a check) records, per function under contract, every stack/heap cell go/ssa allocates for it in order:
 // (source name or kind, element type). When a name is not found in the current function, the table says which position
 // (k-th cell of type T out of n) the name had; if the current function still has exactly n cells of type T, and the k-th is
@@ -29,7 +29,7 @@ type localCell struct {
 var localsTable map[string][]localCell
 
 func loadLocalsTable(verif string) {
-	b, err := os.ReadFile(filepath.Join(verif, "checks", "locals.json"))
+	b, err := os.ReadFile(filepath.Join(verif, "checks", "aux", "locals.json"))
 	if err != nil {
 		return
 	}
@@ -170,7 +170,7 @@ func cmdLocalsTable(args []string) int {
 		}
 	}
 	b, _ := json.MarshalIndent(out, "", " ")
-	dst := "/verif/checks/locals.json"
+	dst := "/verif/checks/aux/locals.json"
 	if len(args) > 0 {
 		dst = args[0]
 	}
